@@ -37,12 +37,17 @@ type vFeeEstimator struct {
 	fail   bool
 	calls  int
 	target uint32
+	// realistic: answers restricted to the domain of H_C30_getFeeRateRealistic
+	realistic bool
 }
 
 func (e *vFeeEstimator) EstimateFeePerKW(targetBlocks uint32) (btcutil.Amount, error) {
 	e.calls++
 	e.target = targetBlocks
 	e.amount = btcutil.Amount(zzverif.I64("estimate.amount"))
+	if e.realistic {
+		zzverif.Assume(e.amount >= 0 && e.amount <= 1<<40)
+	}
 	e.fail = zzverif.Bool("estimate.err")
 	if e.fail {
 		return e.amount, errors.New("estimator failed")
@@ -66,11 +71,22 @@ func vFeeOf(rateSatPerKw btcutil.Amount, txSize int64) uint64 {
 //
 // hence r >= floor on every path and r = max(floor, fallback) when estimation failed or returned
 // zero.  The estimator is asked once, for target 6.  All quantities arbitrary 64-bit values.
-func H_C30_getFeeRate() {
-	est := &vFeeEstimator{}
+func H_C30_getFeeRate() { vGetFeeRate(false) }
+
+// H_C30_getFeeRateRealistic: the same obligations on the domain the callers produce (rates 0..2^40 sat/kW,
+// sizes 1..2^22 vbytes): there every conversion is in range, so a deviation found by the solver also shows
+// natively (outside it float -> uint64 conversions of out-of-range values are arbitrary in the SMT theory
+// and saturating on amd64, and a counterexample may not replay).
+func H_C30_getFeeRateRealistic() { vGetFeeRate(true) }
+
+func vGetFeeRate(realistic bool) {
+	est := &vFeeEstimator{realistic: realistic}
 	fallback := btcutil.Amount(zzverif.I64("fallback"))
 	floor := btcutil.Amount(zzverif.I64("floor"))
 	size := zzverif.I64("size")
+	if realistic {
+		zzverif.Assume(fallback >= 0 && fallback <= 1<<40 && floor >= 0 && floor <= 1<<40 && size >= 1 && size <= 1<<22)
+	}
 	b := NewBitcoinOnChain(est, fallback, floor, &chaincfg.MainNetParams)
 	zzverif.Assert(b.fallbackFeeRateSatPerKw == fallback && b.feeFloorSatPerKw == floor, "C30.constructor_keeps_rates")
 
